@@ -48,6 +48,28 @@ template <class T> struct has_dims<T, std::void_t<decltype(T::Dimensions())>> : 
 template <class A> void dims(const A&) {
   if constexpr (has_dims<A>::value) (void)A::Dimensions();
 }
+template <class Q, class = void> struct has_unit : std::false_type {};
+template <class Q> struct has_unit<Q, std::void_t<decltype(Q::Unit())>> : std::true_type {};
+template <class Q, auto u, class V, class... A> struct can_create : std::false_type {};
+template <class Q, auto u, class... A> struct can_create<Q, u, std::void_t<decltype(Q::template Create<u>(std::declval<A>()...))>, A...> : std::true_type {};
+template <class Q, auto u, class... A> void create_one() {
+  if constexpr (can_create<Q, u, void, A...>::value) (void)Q::template Create<u>(A()...);
+}
+template <class Q, class N, auto u> void create_all() {
+  create_one<Q, u, N>(); create_one<Q, u, N, N>(); create_one<Q, u, N, N, N>(); create_one<Q, u, N, N, N, N, N, N>();
+  create_one<Q, u, N, N, N, N, N, N, N, N, N>();
+  create_one<Q, u, std::array<N, 2>>(); create_one<Q, u, std::array<N, 3>>(); create_one<Q, u, std::array<N, 6>>(); create_one<Q, u, std::array<N, 9>>();
+  create_one<Q, u, PlanarVector<N>>(); create_one<Q, u, Vector<N>>(); create_one<Q, u, SymmetricDyad<N>>(); create_one<Q, u, Dyad<N>>();
+}
+template <class Q, class N> void members(const Q& q) {
+  if constexpr (has_unit<Q>::value) {
+    using U = std::remove_cv_t<decltype(Q::Unit())>;
+    constexpr U u0 = static_cast<U>(0);
+    constexpr U u1 = static_cast<U>(1);
+    (void)q.template StaticValue<u0>(); (void)q.template StaticValue<u1>();
+    create_all<Q, N, u0>(); create_all<Q, N, u1>();
+  }
+}
 template <class D, class S> void conv(D& d, const S& s) {
   if constexpr (std::is_constructible_v<D, const S&>) { D c(s); (void)c; }
   if constexpr (std::is_assignable_v<D&, const S&>) d = s;
@@ -160,7 +182,7 @@ def tensors_tu(types=('double',), other_types=('float',), free_templates=None, c
     return s
 
 
-def quantities_tu(types=('double',), other_types=('float',), classes=None, hash_=True, conv=True):
+def quantities_tu(types=('double',), other_types=('float',), classes=None, hash_=True, conv=True, members=False):
     """All headers; every class template<NumericType> explicitly instantiated for each numeric type;
     comparison operators, number*q, compound scaling, std::hash and (optionally) the converting
     constructor/assignment instantiated by use."""
@@ -193,6 +215,9 @@ def quantities_tu(types=('double',), other_types=('float',), classes=None, hash_
             s += 'void use_%d(%s<%s>& a, %s<%s>& b, %s n) { cmps(a, b); scal(a, n); nmul(n, a); dims(a); }\n' % (
                 n, c, t, c, t, t)
             n += 1
+            if members:
+                s += 'void use_%d(%s<%s>& a) { members<%s<%s>, %s>(a); }\n' % (n, c, t, c, t, t)
+                n += 1
             if conv:
                 for o in other_types:
                     if o != t:
